@@ -1,6 +1,7 @@
 import Props.C04
 import Lemmas.RoEquiv
 import Lemmas.Tree
+import Lemmas.Collect
 /-!
 # C09 — require-order stops at the first non-option and hands the rest over verbatim
 -/
@@ -114,6 +115,38 @@ theorem ro_parse_unknown_stop (P : Prog) (pre tail : List Str) (t : Str) (p : Pa
   rw [run_append, hw]
   simp only [List.foldl_cons]
   rw [hst]
+  have := after_stop ext mode
+    { run ext mode P pre with rem := (run ext mode P pre).rem ++ [t], ctx := .stopped, pending := [], tok := t,
+                              lastTok := t, passed := false } tail (by simpa using he) rfl
+  simp only at this
+  obtain ⟨h1, h2, h3, h4, h5⟩ := this
+  refine ⟨by rw [h1]; rfl, h2, h3, h4, ?_⟩
+  rw [h5]; simp [PState.cl]
+
+/-- **… and when the stop token reaches the head position only after being refused as a value**: `pre` leaves an
+occurrence open that already has its minimum (an optional value, a slice or map below its maximum) and nothing
+pending; the unknown-option token `t` looks like an option, so the open occurrence refuses it, and it is then the
+require-order stop token exactly as at a head position — same conclusion. -/
+theorem ro_parse_unknown_stop_open (P : Prog) (pre tail : List Str) (t : Str) (p : Pair) (ps : List Pair) (o i : Nat)
+    (he : (run ext mode P pre).err = none) (hc : (run ext mode P pre).ctx = .collecting o i)
+    (hp : (run ext mode P pre).pending = [])
+    (hmin : ¬ (i : Int) < ((run ext mode P pre).P.opt o).min)
+    (hopt : isOption t mode = (p :: ps, true))
+    (hr : resolve ((run ext mode P pre).P.node (run ext mode P pre).cur) p.opt = [])
+    (hro : ((run ext mode P pre).P.node (run ext mode P pre).cur).requireOrder = true) :
+    let r := parseArgs ext mode P (pre ++ t :: tail)
+    let w := run ext mode P.clearRO pre
+    r.P.clearRO = w.P ∧ r.cur = w.cur ∧ r.unk = w.unk ∧ r.err = none ∧ r.rem = w.rem ++ t :: tail := by
+  have hns : (run ext mode P pre).ctx ≠ .stopped := by rw [hc]; intro e; cases e
+  have hw := run_cl ext mode P pre hns
+  have hlook : looksLikeOption t mode = true := by simp [looksLikeOption, hopt]
+  have hidle := refused_as_idle ext mode (run ext mode P pre) o i t he hc hp hmin (Or.inl hlook)
+  have hst := ro_stop_unknown_token ext mode { run ext mode P pre with ctx := .idle } t p ps he rfl hopt hr hro
+  simp only
+  unfold parseArgs
+  rw [run_append, hw]
+  simp only [List.foldl_cons]
+  rw [hidle, hst]
   have := after_stop ext mode
     { run ext mode P pre with rem := (run ext mode P pre).rem ++ [t], ctx := .stopped, pending := [], tok := t,
                               lastTok := t, passed := false } tail (by simpa using he) rfl
